@@ -19,6 +19,8 @@ import (
 //	shadow   func() int { b := 7; return b }()  a local variable with the name of a package-level one
 //	param    func(b int) int { return b }(7)  a parameter of a function literal with the name of a package-level variable
 //	fieldkey rec{b: 7}.b                     a struct field key with the name of a package-level variable
+//	callfv   fv0()                           call of a package-level variable initialised by a function literal
+//	passfv   usefn(fv0)                      such a variable passed as a value, not called
 //	lit      7
 //	pkgvar   liba.X                          exported variable of an imported package (V = import path)
 type argT struct {
@@ -37,6 +39,7 @@ type argT struct {
 //	mvalue   var mv0 = lgf("mv0", t0.m0)         (Recv = t0, Meth = m0)
 //	blank    var _ = lg("x0", args…)             (Label = x0)
 //	mapvar   var mp0 = map[int]int{7: lg("mp0", args…)}
+//	funcvar  var fv0 = func() int { return 1 + args… }   (a function literal: evaluating it logs nothing)
 //	commaok  var v0, ok0 = mp0[lg("v0", args…)]    (Recv = mp0; package-level comma-ok declaration, accepted since 2d7bcd6)
 type varT struct {
 	Kind  string   `json:"kind"`
@@ -197,6 +200,10 @@ func argSrc(a argT) string {
 		return "func() int { return " + a.V + " }()"
 	case "shadow":
 		return "func() int { " + a.V + " := 7; return " + a.V + " }()"
+	case "callfv":
+		return a.V + "()"
+	case "passfv":
+		return "usefn(" + a.V + ")"
 	case "param":
 		return "func(" + a.V + " int) int { return " + a.V + " }(7)"
 	case "fieldkey":
@@ -244,6 +251,12 @@ func varSrc(v varT, px string) string {
 		return fmt.Sprintf("var %s = lgf(%q, %s.%s)", v.Names[0], px+v.Names[0], v.Recv, v.Meth)
 	case "mapvar":
 		return fmt.Sprintf("var %s = map[int]int{7: lg(%q%s)}", v.Names[0], px+v.Names[0], argsSrc(argsOf(v, 0)))
+	case "funcvar":
+		sum := "1"
+		for _, a := range argsOf(v, 0) {
+			sum += " + " + argSrc(a)
+		}
+		return fmt.Sprintf("var %s = func() int { return %s }", v.Names[0], sum)
 	case "commaok":
 		return fmt.Sprintf("var %s = %s[lg(%q%s)]", strings.Join(v.Names, ", "), v.Recv, px+v.Names[0], argsSrc(argsOf(v, 0)))
 	}
@@ -286,6 +299,13 @@ func lg(s string, xs ...int) int {
 func lgf(s string, f func() int) func() int {
 	say(s)
 	return f
+}
+
+func usefn(f func() int) int {
+	if f == nil {
+		return 0
+	}
+	return 7
 }
 `
 
@@ -401,6 +421,8 @@ func (c caseT) mainSrc() string {
 			b.WriteString(", " + v.Names[0] + "()")
 		case "mapvar":
 			b.WriteString(", len(" + v.Names[0] + ")")
+		case "funcvar":
+			b.WriteString(", " + v.Names[0] + "()")
 		case "commaok":
 			b.WriteString(", " + v.Names[1])
 		}
@@ -585,8 +607,10 @@ func argIds(a argT) []string {
 		return []string{id("T."+a.W, true), id(a.V, true)}
 	case "mexpr":
 		return []string{id("T."+a.W, true), id(a.V, true)}
-	case "callvar":
+	case "callvar", "callfv":
 		return []string{id(a.V, true)}
+	case "passfv":
+		return []string{id("usefn", true), id(a.V, true)}
 	case "funclit":
 		return []string{id(a.V, true)}
 	case "shadow", "param":
@@ -646,6 +670,9 @@ func varSexp(v varT, late, opLate bool, px string) string {
 		// m[k]: the map operand is met first, then the index expression
 		ids := append([]string{id(v.Recv, true), id("lg", true)}, argIdsAll(argsOf(v, 0))...)
 		items = append(items, common.L(common.Q(px+v.Names[0]), common.L(ids...)))
+	case "funcvar":
+		// the empty label: a function literal logs nothing; the identifiers are those of its body
+		items = append(items, common.L(common.Q(""), idsOf("", argsOf(v, 0))))
 	case "int", "struct", "mapvar":
 		items = append(items, common.L(common.Q(px+v.Names[0]), idsOf("lg", argsOf(v, 0))))
 	case "blank":
@@ -675,6 +702,7 @@ func (c caseT) declSexp(code string) []string {
 			funcSexp("say", "n", "-", 1, 0, "-", "()"),
 			funcSexp("lg", "n", "-", 2, 1, "-", common.L(id("say", true))),
 			funcSexp("lgf", "n", "-", 2, 1, "-", common.L(id("say", true))),
+			funcSexp("usefn", "n", "-", 1, 1, "-", "()"),
 		}
 		return append(out, c.typesSexp()...)
 	case "T":
